@@ -77,3 +77,88 @@ func sameKey(pk []int, a, b sql.Row) bool {
 func unrelated(a, b sql.Row) bool { return a[0] == b[0] }
 
 var _ = unrelated
+
+// ---- C14-Y1 fixtures: prefix-length truncation of two compared cells ----
+
+// matchGood resets the bound between the two truncations: silent.
+func matchGood(cols []int, prefix []uint16, a, b sql.Row) bool {
+	for i, idx := range cols {
+		v1, v2 := a[idx], b[idx]
+		if len(prefix) > i && prefix[i] > 0 {
+			n := prefix[i]
+			if s, ok := v1.(string); ok {
+				if n > uint16(len(s)) {
+					n = uint16(len(s))
+				}
+				v1 = s[:n]
+			}
+			n = prefix[i]
+			if s, ok := v2.(string); ok {
+				if n > uint16(len(s)) {
+					n = uint16(len(s))
+				}
+				v2 = s[:n]
+			}
+		}
+		if v1.(string) != v2.(string) {
+			return false
+		}
+	}
+	return true
+}
+
+// matchStale keeps the bound clamped to the first cell: reported for b.
+func matchStale(cols []int, prefix []uint16, a, b sql.Row) bool {
+	for i, idx := range cols {
+		v1, v2 := a[idx], b[idx]
+		if len(prefix) > i && prefix[i] > 0 {
+			n := prefix[i]
+			if s, ok := v1.(string); ok {
+				if n > uint16(len(s)) {
+					n = uint16(len(s))
+				}
+				v1 = s[:n]
+			}
+			if s, ok := v2.(string); ok {
+				if n > uint16(len(s)) {
+					n = uint16(len(s))
+				}
+				v2 = s[:n]
+			}
+		}
+		if v1.(string) != v2.(string) {
+			return false
+		}
+	}
+	return true
+}
+
+func cut(c any, n uint16) any {
+	if s, ok := c.(string); ok {
+		if n > uint16(len(s)) {
+			n = uint16(len(s))
+		}
+		return s[:n]
+	}
+	return c
+}
+
+// matchHelperOneSide truncates only the first row through a helper: reported (b never truncated, types differ).
+func matchHelperOneSide(cols []int, prefix []uint16, a, b sql.Row) bool {
+	for i, idx := range cols {
+		if cut(a[idx], prefix[i]).(string) != b[idx].(string) {
+			return false
+		}
+	}
+	return true
+}
+
+// matchHelperBoth: silent.
+func matchHelperBoth(cols []int, prefix []uint16, a, b sql.Row) bool {
+	for i, idx := range cols {
+		if cut(a[idx], prefix[i]).(string) != cut(b[idx], prefix[i]).(string) {
+			return false
+		}
+	}
+	return true
+}
